@@ -1048,6 +1048,11 @@ class PolyhedralTermList(TermList):  # noqa: WPS338
             assert m_h == m
         if n == 0:
             return a, b
+        if m == 0 and not helper_present:
+            # no variable at all: every row is a constant inequality 0 <= b
+            if np.any(b < 0):
+                raise ValueError("The constraints are unsatisfiable")
+            return a, b
         if n == 1 and not helper_present:
             return a, b
 
